@@ -84,7 +84,8 @@ ConsoleCallOk(x, e) ==
         IF e.op = "write" THEN
            <<e.ret[2] = Len(e.buf) /\ ~HasErrC(e.console, "eI") /\ ~HasErrC(e.console, "eO") /\ allHandedOver, w[1]>>
         ELSE <<~HasErrC(e.console, "eO") /\ ~HasZeroC(e.console) /\ allHandedOver, w[1]>>
-     ELSE <<prefixOnly /\ ((kind \in {"eI", "eO"} /\ HasErrC(e.console, kind)) \/ (kind = "eZ" /\ HasZeroC(e.console)) \/ kind = "eF"), w[1]>>
+     ELSE <<prefixOnly /\ ((kind \in {"eI", "eO"} /\ HasErrC(e.console, kind)) \/ (kind = "eZ" /\ HasZeroC(e.console))
+                      \/ (kind = "eF" /\ ~HasErrC(e.console, "eI") /\ ~HasErrC(e.console, "eO") /\ ~HasZeroC(e.console))), w[1]>>
 
 (***************************************************************************)
 (* Finding F13 exactly as the code does it (tolerance, only while the       *)
